@@ -798,7 +798,7 @@ func init() {
 				for _, call := range accesses {
 					if an.IsMethod(call, c.P.Module+"/internal/cache", "Cache", "Set") {
 						if _, args := an.CallArgs(call); len(args) > 0 {
-							for f := range structStores(an.Strip(args[0])) {
+							for f := range keyFields(args[0]) {
 								produced[f] = true
 							}
 						}
@@ -811,7 +811,7 @@ func init() {
 					if len(args) == 0 {
 						continue
 					}
-					fields := structStores(an.Strip(args[0]))
+					fields := keyFields(args[0])
 					var lacking []string
 					for f := range produced {
 						if _, ok := fields[f]; !ok {
@@ -859,4 +859,47 @@ func init() {
 				c.Unresolved("server-cache", "no access of a server-level cache found in the handlers")
 			}
 		}})
+}
+
+// keyFields decomposes a struct-valued cache key into its field values: a composite literal at the call, or the
+// struct a local helper / closure builds and returns (its parameters standing for the call's arguments and its free
+// variables for the variables it captured).
+func keyFields(arg ssa.Value) map[string][]ssa.Value {
+	if f := structStores(an.Strip(arg)); len(f) > 0 {
+		return f
+	}
+	hr := an.HelperReturns(an.Origin(arg), nil)
+	if len(hr) != 1 {
+		return map[string][]ssa.Value{}
+	}
+	x := hr[0]
+	out := map[string][]ssa.Value{}
+	for f, vals := range structStores(an.Strip(x.Val)) {
+		for _, v := range vals {
+			o := an.Origin(v)
+			switch y := o.(type) {
+			case *ssa.Parameter:
+				for i, q := range x.Callee.Params {
+					if q == y && i < len(x.Call.Call.Args) {
+						o = x.Call.Call.Args[i]
+					}
+				}
+			case *ssa.FreeVar:
+				if b := an.FreeVarBinding(y); b != nil {
+					o = b
+				}
+			case *ssa.UnOp:
+				// a captured variable: *freevar
+				if fv, ok := y.X.(*ssa.FreeVar); ok {
+					if b := an.FreeVarBinding(fv); b != nil {
+						if st := an.SingleStore(b); st != nil {
+							o = st
+						}
+					}
+				}
+			}
+			out[f] = append(out[f], o)
+		}
+	}
+	return out
 }
